@@ -650,7 +650,7 @@ func fsEntries(top string) []string {
 			out = append(out, hx([]byte(p))+"|d||"+mt+"|"+attr)
 		case info.Mode()&os.ModeSymlink != 0:
 			t, _ := os.Readlink(p)
-			out = append(out, hx([]byte(p))+"|l|"+hx([]byte(t))+"|-|"+attr)
+			out = append(out, hx([]byte(p))+"|l|"+hx([]byte(t))+"|"+mt+"|"+attr)
 		case info.Mode().IsRegular():
 			b, _ := os.ReadFile(p)
 			out = append(out, hx([]byte(p))+"|f|"+hx(b)+"|"+mt+"|"+attr)
